@@ -1526,6 +1526,117 @@ def _values_fuses(m: Model, ad: Adapter, cfg: dict, settings: dict, expect: list
 
 
 # ====================================================================== parts
+
+# ====================================================================== targeted enumerations added after the seeded-change audit
+def _reconf_items() -> list:
+    """Every PFR / IFR tuple whose database record declares computed fields, twice (two value seeds)."""
+    s = _state()
+    if "reconf" not in s:
+        out = []
+        for t in s["tuples"]:
+            if t["area"] not in ("pfr", "ifr"):
+                continue
+            m = _model(t)
+            if not _values_domain(m) or not any(m.computed_bf(r) for r in m.regs):
+                continue
+            for seed in (0, 1):
+                out.append({"dev": t["dev"], "rev": t["rev"], "area": t["area"], "sub": t["sub"], "seed": seed})
+        s["reconf"] = out
+    return s["reconf"]
+
+
+def _reconf_settings(m: Model, rnd: random.Random) -> tuple[dict, list]:
+    """In-range values for every named writable non-computed bit-field of the registers that carry computed fields."""
+    settings: dict = {}
+    expect = []
+    for r in m.visible():
+        comp = m.computed_bf(r)
+        if not comp or not r.writable or m.owned(r):
+            continue
+        names = [b.name for b in r.bitfields]
+        d = {}
+        for b in r.named_bitfields():
+            if b.uid in comp or b.name in comp or not b.writable or b.width <= 0 or names.count(b.name) != 1 or m.owned(r, b) or b.shift:
+                continue
+            v = _draw_value(rnd, b.width, "random")
+            d[b.name] = hex(v)
+            expect.append((r, b.offset, b.width, v))
+        if d:
+            settings[r.name] = d
+    return settings, expect
+
+
+def run_reconfigure(case, o: Oracle) -> None:
+    """History on ONE object: configure + export, parse that binary, configure the parsed object with other values, export.
+
+    The computed fields must hold in the second binary as well ("computed fields hold in every exported binary"), and the
+    second assignment must read back."""
+    t = {k: case[k] for k in ("dev", "rev", "area", "sub")}
+    m = _model(t)
+    ad = _adapter(m)
+    o.label("step:reconfigure", "area:" + m.area)
+    rnd = random.Random(hashlib.sha256(repr(sorted(case.items())).encode()).digest())
+    s1, _ = _reconf_settings(m, rnd)
+    s2, expect2 = _reconf_settings(m, rnd)
+    if not s1 or not s2:
+        o.nontrivial(False)
+        return
+    o.nontrivial(True)
+    o.key(("reconfigure", m.dev, m.rev, m.sub, case["seed"]))
+    o.sample({"tuple": t, "first": {k: s1[k] for k in list(s1)[:2]}, "second": {k: s2[k] for k in list(s2)[:2]}})
+    b1 = b2 = None
+    with o.spsdk("reconfigure", "first"):
+        obj1 = ad.load(ad.cfg_with(s1))
+        b1 = ad.export(obj1)
+    if b1 is None:
+        return
+    _check_computed(m, b1, set(s1), o, "reconfigure_first")
+    with o.spsdk("reconfigure", "second"):
+        obj2 = ad.parse(b1)
+        obj2.set_config(s2)
+        b2 = ad.export(obj2)
+    if b2 is None:
+        return
+    _check_computed(m, b2, set(s2), o, "reconfigure_second")
+    for r, off, width, v in expect2:
+        got = regspec.field_bits(b2, r.offset, r.nbytes, off, width)
+        o.check("readback", got == v, "reconfigure_field", "%s register %s bits [%d+%d]: binary holds %#x, configured %#x" % (m.t, r.name, off, width, got, v))
+    # the same second configuration on a fresh object gives the same registers (no residue of the first one)
+    with o.spsdk("reconfigure", "fresh"):
+        b3 = ad.export(ad.load(ad.cfg_with(s2)))
+        for r in m.visible():
+            if r.name in s2:
+                o.check("computed", regspec.reg_int(b2, r.offset, r.nbytes) == regspec.reg_int(b3, r.offset, r.nbytes) or any(
+                    b.name not in s2[r.name] and not (b.uid in m.computed_bf(r) or b.name in m.computed_bf(r)) for b in r.named_bitfields()),
+                    "reconfigure_residue", "%s register %s: %#x after parse+set_config, %#x on a fresh object" % (
+                        m.t, r.name, regspec.reg_int(b2, r.offset, r.nbytes), regspec.reg_int(b3, r.offset, r.nbytes)))
+
+
+def _memcfg_rule_items() -> list:
+    """One tuple per (option-word specification, count rule) class x 8 seeds, every register assigned."""
+    s = _state()
+    if "memcfg_rules" not in s:
+        seen = {}
+        for t in s["tuples"]:
+            if t["area"] != "memcfg":
+                continue
+            m = _model(t)
+            if not _values_domain(m):
+                continue
+            seen.setdefault((m.spec_key, m.ow_rule), t)
+        out = []
+        for (_, rule), t in sorted(seen.items(), key=lambda kv: repr(kv[0])):
+            for seed in range(8):
+                out.append({"dev": t["dev"], "rev": t["rev"], "area": "memcfg", "sub": t["sub"], "k": 400, "first": 0,
+                            "mode": "random" if seed % 4 else ("max", "min")[seed // 4], "spell": "mixed", "whole": 1, "seed": 1000 + seed})
+        s["memcfg_rules"] = out
+    return s["memcfg_rules"]
+
+
+def run_memcfg_rules(case, o: Oracle) -> None:
+    run_values(case, o)
+    o.label("step:memcfg_rules")
+
 def parts(ctx):
     s = _state()
     # build every model once here (parent process): specification files are read a single time and the
@@ -1550,4 +1661,6 @@ def parts(ctx):
     return [
         EnumPart("defaults", _tuples_count, _tuples_item, run_defaults),
         HypPart("values", _values_strategy, run_values, {"quick": n_quick, "thorough": 30000}),
+        EnumPart("reconfigure", lambda tier: len(_reconf_items()), lambda tier, i: _reconf_items()[i], run_reconfigure),
+        EnumPart("memcfg_rules", lambda tier: len(_memcfg_rule_items()), lambda tier, i: _memcfg_rule_items()[i], run_memcfg_rules),
     ]
